@@ -479,7 +479,10 @@ MALFORMED_FIXED = [
     b"*", b"+", b"?", b"*a", b"+a", b"?a", b"a{", b"a{1", b"a{1,", b"a{2,1}", b"a{,}", b"a{1,2", b"{", b"}", b"a{99999}", b"a{100001}", b"a{99999999999}", b"(a{1000}){1000}", b"a{1,99999}", b"|", b"||", b"a||b", b"^", b"$", b"^raw$", b"^$", b"$^",
     b"\x00", b"\x00\x00", b"\x00a", b"a\x00", b"a\x00b", b"\x00\x00a", b"\x00" * 255, b"raw\x00", b"raw\x00\x00", b"\x00raw", b"ra\x00w", b"[\x00", b"(\x00", b"[\x00]", b"\\\x00", b".*\x00", b"[a\x00", b"(a\x00",
     b"a" * 255, b"." * 255, b"(a)" * 85, b"[" * 255, b"\\" * 255, b"\\" * 254, b"a|" * 127, b"\xff" * 255, b"(?:" * 85, b"[a-z]" * 51, b".*" * 10, b"a?" * 20 + b"a" * 20,
-    b"\x80", b"\xff", b"[\x80-\xff]", b"[\xff-\x80]", b"[a-\xff]", b"\xc3\xa9", b"caf\xc3\xa9", b"%s%s%s%n", b"%n", b"\n", b"\r\n", b".*\n.*", b" ", b"\t",
+    b"\x80", b"\xff", b"[\x80-\xff]", b"[\xff-\x80]", b"[a-\xff]", b"\xc3\xa9", b"caf\xc3\xa9", b"%s%s%s%n", b"%n", b"\n",
+    # malformed AND full of printf conversions: whatever reports the error must not use the pattern as a format string
+    b"(%s%s%s%s%s%s%s%s%s%s%s%s", b"[%n%n%n%n%n%n%n%n", b"(%p|%p|%p|%p", b"%s%s%s%s%s%s%s%s%s%s%s%s(", b"\\%s%s%s%s%s%s%s%s%n\\", b"a{2,1}%s%s%s%s%s%s%s%s%s%s",
+    b"[z-a]%n%n%n%n%n%n", b"%1000000s(", b"(%*s%*s%*s%*s", b"%s" * 120 + b"[", b"*%s%s%s%s%s%s%s%s%s", b"(?%s%s%s%s%s%s%s%s%s%s%s", b"\r\n", b".*\n.*", b" ", b"\t",
 ]
 # exponential for libstdc++'s backtracking matcher on a 25-character name: the watchdog fires (not a violation)
 MALFORMED_SLOW = [b".**?c", b"a**", b"a+*", b"a?*", b"a*+", b".*+x", b"(a*)*b", b"(a|a)*b", b"(.*)*x", b"(.+)+x", b"(.*.*)*x", b".*.*.*.*.*.*.*.*x"]
@@ -501,7 +504,7 @@ def malformed_patterns(rng, n, devs, slow):
             nm = bytearray(rng.choice(names)[:60])
             k = rng.random()
             pos = rng.randrange(0, len(nm) + 1)
-            ins = rng.choice([b"[", b"(", b")", b"\\", b"*", b"{", b"\x00", b"[^", b"(?", b"\\x", b"{2,1}", b"|", b"+?", b"\x00\x00"])
+            ins = rng.choice([b"[", b"(", b")", b"\\", b"*", b"{", b"\x00", b"[^", b"(?", b"\\x", b"{2,1}", b"|", b"+?", b"\x00\x00", b"(%s%s%s%s%s%s%s%s", b"[%n%n%n%n"])
             b = bytes(nm[:pos]) + ins + bytes(nm[pos:])
             if k < 0.3:
                 b = b + b"\x00" * rng.randrange(1, 4)
